@@ -55,7 +55,7 @@ def gen_cases(tier, seed):
     while True:
         s = seed * 15485863 + i
         yield {"seed": s, "mut": None}
-        for m in range(4):
+        for m in range(5):
             yield {"seed": s, "mut": m}
         i += 1
 
@@ -140,6 +140,42 @@ def sites(prog):
         elif isinstance(node, list):
             for v in node:
                 walk_stmt_lists(v, fun_ret)
+
+    # a name bound inside a block and used after it: the checker must reject it (scoping half of the property)
+    def after_scope(block):
+        def prn(name):
+            return {"k": "expr", "e": E("call", UNIT, False, True, fn="println", builtin=True,
+                                         args=[E("call", STR, fn="string_repr", builtin=True, args=[E("var", INT, name=name, bid=0)])])}
+        ints = E("list", ["List", INT], items=[E("int", INT, v=1), E("int", INT, v=2)])
+        pairs = E("list", ["List", ["Tuple", [INT, INT]]], items=[E("tuple", ["Tuple", [INT, INT]], items=[E("int", INT, v=1), E("int", INT, v=2)])])
+        variants = {
+            "use-after-for": [{"k": "for", "dest": {"v": ["verif_lv", 0]}, "e": ints, "body": [prn("verif_lv")]}],
+            "use-after-for-destructure": [{"k": "for", "dest": {"d": [["verif_la", 0], ["verif_lv", 0]]}, "e": pairs, "body": [prn("verif_lv")]}],
+            "use-after-if-let": [{"k": "expr", "e": E("if", UNIT, False, False, stmt=True, cond=E("bool", BOOL, v=True),
+                                                     then=[{"k": "let", "name": "verif_lv", "bid": 0, "ann": None, "e": E("int", INT, v=1)}, prn("verif_lv")], els=None)}],
+            "use-after-match-arm": [{"k": "expr", "e": E("match", UNIT, False, False, stmt=True, scrut=E("some", ["Option", INT], e=E("int", INT, v=1)),
+                                                        arms=[{"variant": "Some", "bind": ["verif_lv", 0], "body": [prn("verif_lv")]},
+                                                              {"variant": "None", "bind": None, "body": [prn_unit()]}])}],
+            "use-after-for-body-let": [{"k": "for", "dest": {"v": ["verif_la", 0]}, "e": ints,
+                                        "body": [{"k": "let", "name": "verif_lv", "bid": 0, "ann": None, "e": E("int", INT, v=1)}, prn("verif_lv")]}],
+        }
+        for kind, stmts in variants.items():
+            def apply(rng, block=block, stmts=stmts):
+                i = rng.randrange(len(block) + 1)
+                # never after a terminator and never as a block's value position
+                while i > 0 and block[i - 1]["k"] in ("break", "continue", "return"):
+                    i -= 1
+                i = min(i, max(0, len(block) - 1))
+                block[i:i] = stmts + [prn("verif_lv")]
+            out.append((kind, apply))
+
+    def prn_unit():
+        return {"k": "expr", "e": E("call", UNIT, False, True, fn="println", builtin=True, args=[E("str", STR, v="n")])}
+
+    after_scope(prog["main"])
+    for f in prog["funs"]:
+        if f["body"]:
+            after_scope(f["body"])
 
     for f in prog["funs"]:
         walk_stmt_lists(f["body"], f["ret"])
